@@ -583,6 +583,13 @@ class Run:
                 return b.v if b.v is not None else UNIT
             raise
 
+    def pat_guard(self, v, pat):
+        """fork on an undecidable pattern test; `None` / `Err(_)` are spelled as the complement of `Some(_)` / `Ok(_)`"""
+        pt = self.showpat(pat)
+        comp = {"None": "Some(_)", "Err(_)": "Ok(_)"}.get(pt)
+        r = self.choose("guard", "%s matches %s" % (showv(v), comp or pt), [("true", True), ("false", False)])
+        return (not r) if comp else r
+
     def e_If(self, e, env):
         cond = e["cond"]
         if cond["k"] == "LetCond":
@@ -590,7 +597,7 @@ class Run:
             env2 = dict(env)
             r = self.match(cond["pat"], v, env2)
             if r is None:
-                r = self.choose("guard", "%s matches %s" % (showv(v), self.showpat(cond["pat"])), [("true", True), ("false", False)])
+                r = self.pat_guard(v, cond["pat"])
             if r:
                 env.update(env2)
                 return self.block(e["then"], env)
@@ -651,10 +658,13 @@ class Run:
                 r = True
             if r is None:
                 # undecidable pattern: fork "this arm's pattern matches" / "does not" (once per distinct pattern)
-                lab = "%s matches %s" % (showv(v), self.showpat(arm["pat"]))
+                pt = self.showpat(arm["pat"])
+                # `None` is the complement of `Some(_)`, `Err(_)` of `Ok(_)`: one canonical guard for both spellings
+                comp = {"None": "Some(_)", "Err(_)": "Ok(_)"}.get(pt)
+                lab = "%s matches %s" % (showv(v), comp or pt)
                 if lab not in decided:
                     decided[lab] = self.choose("guard", lab, [("true", True), ("false", False)])
-                if not decided[lab]:
+                if decided[lab] == bool(comp):
                     continue
             if arm.get("guard") is not None:
                 g = self.eval(arm["guard"], env2)
@@ -1109,7 +1119,7 @@ class Run:
                 env2 = dict(env)
                 r = self.match(s["pat"], v, env2)
                 if r is None and s.get("else") is not None:
-                    r = self.choose("guard", "%s matches %s" % (showv(v), self.showpat(s["pat"])), [("true", True), ("false", False)])
+                    r = self.pat_guard(v, s["pat"])
                 if r is False:
                     if s.get("else") is None:
                         raise _Infeasible()
